@@ -651,6 +651,13 @@ impl<M: Manager, W: From<Object<M>>> Pool<M, W> {
             slots,
         }
     }
+
+    /// Verification hook: whether the slots mutex has been poisoned (a panic
+    /// unwound through one of its critical sections).
+    #[cfg(deadpool_verif)]
+    pub fn verif_poisoned(&self) -> bool {
+        self.inner.slots.is_poisoned()
+    }
 }
 
 struct PoolInner<M: Manager> {
